@@ -137,3 +137,17 @@ MANIFEST_TEXT = {
   "note": "Trusted: harness, model. One residual case is a recorded known finding if listed in known_findings.txt.",
   "technique": RM + "cancellation-point enumeration with model comparison and quota probes"},
 }
+
+add("C17", "fault_enumeration",
+    "crash-point enumeration: after every bounded history of QoS 1/2 publishes and acknowledgements the connection is cut, hook H1 backdates the disconnection, the context is given a new transport, "
+    "reconnects (same Session Expiry Interval, CONNACK session present) and runs; the packets on the second wire before any new request are compared with the model (unfinished PUBLISH with DUP=1 in order, "
+    "unfinished PUBREL in order, nothing else; nothing at all when expired), then acknowledgements are delivered on the new connection and the original futures must complete. "
+    "distinct = distinct (expiry, elapsed, abstract trace shape).",
+    {"quick": ["checked"], "thorough": ["checked", "fast"]},
+    {"quick": {"resumed_sessions": 2000, "expired_sessions": 2000, "publishes_expected_resent": 2000, "pubrels_expected_resent": 300},
+     "thorough": {"resumed_sessions": 100000}},
+    ["hook H1 (feature verif) is the only way to reach the resume path: production code never records a disconnection", "elapsed times are kept >= 6 s away from the expiry boundary so the wall clock cannot decide a verdict"])
+MANIFEST_TEXT["C17"] = {
+  "text": "The disconnection was injected after every bounded history and for expiry 0 / finite (before and after expiry) / never; the second connection's wire and the completion of the original futures were compared with the model.",
+  "note": "Trusted: harness, reference codec, model, hook H1 (sets the disconnection timestamp, nothing else). Not asserted (not stated by the property): quota after resume, CONNACK without session present, differing expiry intervals.",
+  "technique": RM + "crash-point enumeration + wire-trace comparison against a model of unfinished handshakes"}
